@@ -64,6 +64,8 @@ SCHEME_KINDS = {
     'one': [spaces.UNIFYING],
     'one_b': [spaces.B3LTB4],
     'ext': [spaces.UNIFYING, spaces.PSEUDO],
+    'six_t7': [spaces.UNIFYING, spaces.INDUCED_05, spaces.PSEUDO, spaces.B3LTB4, spaces.POSITIONAL, spaces.B5LTT5,
+               spaces.UNIFYING_TINY, spaces.INDUCED05_TINY, spaces.B1EQ3T0],
     'six_t': [spaces.UNIFYING, spaces.INDUCED_05, spaces.PSEUDO, spaces.B3LTB4, spaces.POSITIONAL, spaces.B5LTT5,
               spaces.UNIFYING_TINY, spaces.INDUCED05_TINY],
     'three_t': [spaces.UNIFYING, spaces.PSEUDO, spaces.B5LTT5, spaces.UNIFYING_TINY, spaces.INDUCED05_TINY],
@@ -142,15 +144,31 @@ def family7_datasets(sh):
 
 
 def premutated(it):
-    """for every dataset ds0 of the underlying space and every element x of its universe (>= 2 elements, and the
-    removal must leave a ranking): the marker ('premutated', ds0, x)."""
+    """for every dataset ds0 of the underlying space: the markers ('premutated', ds0, x) for every element x of its
+    universe (>= 2 elements, the removal must leave a ranking) and ('premutated', ds0, 'empties') when ds0 contains an
+    empty ranking (mutation = remove_empty_rankings)."""
     for index, ds0 in it:
         uni = spaces.universe_of(ds0)
+        if any(len(r) == 0 for r in ds0):
+            yield index, ('premutated', ds0, 'empties')
         if len(uni) < 2:
             continue
         for x in uni:
             if len(refmodel.remove_elements(ds0, {x})) > 0:
                 yield index, ('premutated', ds0, x)
+
+
+from .lib import mutate_in_place  # noqa: E402
+
+
+def consensus_snapshot(c, back):
+    """content of a Consensus that must never change once it was returned."""
+    try:
+        rk = tuple(tuple(frozenset((e.type, e.value) for e in b) for b in r) for r in c.consensus_rankings)
+        feats = tuple(sorted((str(k), repr(v)) for k, v in c.features.items()))
+        return (rk, feats)
+    except Exception as e:      # unreadable now: also a change
+        return ('unreadable', repr(e))
 
 
 def run_block(ctx, sh, mode, configs, oracle, flags=(True, False), per_dataset=None, only=None, ds_filter=None):
@@ -170,7 +188,7 @@ def run_block(ctx, sh, mode, configs, oracle, flags=(True, False), per_dataset=N
     if sh.get('premutate'):
         it = premutated(it)
     reuse = sh.get('reuse', sh.get('space') is None and n <= 5 and spaces.SWO_COUNT[n] ** sh['m'] <= 2000)
-    instances, history = {}, {}
+    instances, history, earlier = {}, {}, {}
     for index, ds in it:
         if ds_filter is not None and not ds_filter(ds):
             ctx.count('datasets_outside_the_filter')
@@ -181,7 +199,7 @@ def run_block(ctx, sh, mode, configs, oracle, flags=(True, False), per_dataset=N
             # remove_elements({x}); the reference dataset is the list-of-sets model of that removal
             _, ds0, x = ds
             origin = (ds0, x)
-            ds = refmodel.remove_elements(ds0, {x})
+            ds = tuple(r for r in ds0 if len(r) > 0) if x == 'empties' else refmodel.remove_elements(ds0, {x})
         universe = spaces.universe_of(ds)
         back = Back(labels, universe)
         ctx.cases += 1
@@ -192,8 +210,7 @@ def run_block(ctx, sh, mode, configs, oracle, flags=(True, False), per_dataset=N
             from .lib import observe_dataset
             d = mk_dataset(_origin[0], labels)
             observe_dataset(d)
-            victim = [e for r in d.rankings for b in r.buckets for e in b if str(e.value) == str(labels[_origin[1]])]
-            d.remove_elements({victim[0]})
+            mutate_in_place(d, labels, _origin[1])
             return d
         for s in schemes:
             ref = Ref(ds, universe, s)
@@ -212,6 +229,37 @@ def run_block(ctx, sh, mode, configs, oracle, flags=(True, False), per_dataset=N
                         info.dataset, info.scheme, info.reused = dataset, scheme, None
                         info.origin = origin
                         oracle(ctx, info)
+                    if origin is not None:
+                        # history on BOTH objects: the algorithm object first runs on the dataset object as it was,
+                        # the dataset is then mutated in place, and the SAME algorithm object runs on it again
+                        from .lib import observe_dataset
+                        from . import chooser
+                        dataset, scheme = mk_dataset(origin[0], labels), mk_scheme(s)
+                        try:
+                            alg = cfg.factory()
+                            with chooser.Chooser([]):
+                                try:
+                                    alg.compute_consensus_rankings(dataset, scheme, one)
+                                except Exception:
+                                    pass
+                            observe_dataset(dataset)
+                            mutate_in_place(dataset, labels, origin[1])
+                        except Exception:
+                            alg = None
+                        if alg is not None:
+                            harness.mark({'cfg': {'mode': mode}, 'dataset': ds, 'labels': lname, 'n': n, 'scheme': s,
+                                          'config': cfg.name, 'one': one, 'schedule': [], 'premutated_from': origin,
+                                          'same_algorithm_object_ran_before_the_mutation': True})
+                            status, value, trace = algos.run_config(cfg, dataset, scheme, one, None, alg=alg)
+                            ctx.evals += 1
+                            info = Info()
+                            info.ds, info.lname, info.n, info.universe, info.labels = ds, lname, n, universe, labels
+                            info.s, info.cfg, info.one, info.choices = s, cfg, one, [c for _, _, c in trace]
+                            info.status, info.value, info.back, info.ref, info.mode = status, value, back, ref, mode
+                            info.dataset, info.scheme, info.origin = dataset, scheme, origin
+                            info.reused = [{'note': 'same algorithm object ran on this dataset object before it was mutated'}]
+                            oracle(ctx, info)
+                            ctx.count('executions_after_run_mutate_on_the_same_objects')
                     if reuse:
                         # the same inputs once more on a long-lived algorithm object that has already served the
                         # previous inputs of this shard (stale caches, remembered decisions, shared feature dicts)
@@ -237,8 +285,34 @@ def run_block(ctx, sh, mode, configs, oracle, flags=(True, False), per_dataset=N
                             info.reused = prev or [{'note': 'first use of this object'}]
                             info.origin = origin
                             oracle(ctx, info)
+                            # a result handed out earlier by this object must not have been changed by this call
+                            old = earlier.get(key)
+                            if old is not None and consensus_snapshot(old[0], None) != old[1]:
+                                ctx.violation('earlier-result-changed-by-a-later-call', info.case(earlier_case=old[2]),
+                                              repr(consensus_snapshot(old[0], None))[:300], repr(old[1])[:300])
+                            if status == 'ok':
+                                earlier[key] = (value, consensus_snapshot(value, None), {'dataset': ds, 'scheme': s, 'one': one})
                             history[key].append({'dataset': ds, 'scheme': s, 'one': one})
                             ctx.count('executions_on_a_reused_algorithm_object')
+                            # ... the same abstract dataset presented with ANOTHER label set on the same object (e.g.
+                            # ints 0..3 then 'a','1','2','3': identical digit names, different element types)
+                            if sh.get('twin_labels') and one:
+                                from .lib import labels_for as _lf
+                                labels2 = _lf(sh['twin_labels'], n)
+                                back2 = Back(labels2, universe)
+                                dataset, scheme = mk_dataset(ds, labels2), mk_scheme(s)
+                                harness.mark({'cfg': {'mode': mode}, 'dataset': ds, 'labels': sh['twin_labels'], 'n': n,
+                                              'scheme': s, 'config': cfg.name, 'one': one, 'schedule': []})
+                                status, value, trace = algos.run_config(cfg, dataset, scheme, one, None, alg=instances[key])
+                                ctx.evals += 1
+                                info = Info()
+                                info.ds, info.lname, info.n, info.universe, info.labels = ds, sh['twin_labels'], n, universe, labels2
+                                info.s, info.cfg, info.one, info.choices = s, cfg, one, [c for _, _, c in trace]
+                                info.status, info.value, info.back, info.ref, info.mode = status, value, back2, ref, mode
+                                info.dataset, info.scheme, info.origin = dataset, scheme, None
+                                info.reused = [{'dataset': ds, 'scheme': s, 'one': one, 'labels': lname}]
+                                oracle(ctx, info)
+                                ctx.count('executions_on_a_reused_object_after_the_same_data_under_other_labels')
                             # ... and immediately afterwards its twin: the same rankings in reverse order (an equal
                             # Dataset whose element ids differ) on the same object
                             twin = tuple(reversed(ds))
@@ -277,15 +351,30 @@ def replay_case(ctx, c, oracle):
         from .lib import observe_dataset
         origin = (tt(c['premutated_from']['dataset']), c['premutated_from']['removed'])
         dataset = mk_dataset(origin[0], labels)
+        alg0 = None
+        if c.get('reused_after'):
+            # the same algorithm object ran on the dataset before the mutation
+            alg0 = cfg.factory()
+            algos.run_config(cfg, dataset, scheme, c['one'], None, alg=alg0)
         observe_dataset(dataset)
-        victim = [e for r in dataset.rankings for b in r.buckets for e in b if str(e.value) == str(labels[origin[1]])]
-        dataset.remove_elements({victim[0]})
+        mutate_in_place(dataset, labels, origin[1])
+        if alg0 is not None:
+            status, value, trace = algos.run_config(cfg, dataset, scheme, c['one'], None, alg=alg0)
+            info = Info()
+            info.ds, info.lname, info.n, info.universe, info.labels = ds, c['labels'], c['n'], universe, labels
+            info.s, info.cfg, info.one, info.choices = s, cfg, c['one'], [x for _, _, x in trace]
+            info.status, info.value, info.back, info.ref, info.mode = status, value, Back(labels, universe), Ref(ds, universe, s), mode
+            info.dataset, info.scheme, info.reused, info.origin = dataset, scheme, c.get('reused_after'), origin
+            ctx.evals += 1
+            oracle(ctx, info)
+            return
     alg = None
     if c.get('reused_after'):
         alg = cfg.factory()
         for prev in c['reused_after']:
             if 'dataset' in prev:
-                algos.run_config(cfg, mk_dataset(tt(prev['dataset']), labels), mk_scheme(scheme_of(prev['scheme'])),
+                plabels = labels_for(prev['labels'], c['n']) if prev.get('labels') else labels
+                algos.run_config(cfg, mk_dataset(tt(prev['dataset']), plabels), mk_scheme(scheme_of(prev['scheme'])),
                                  prev['one'], None, alg=alg)
     status, value, trace = algos.run_config(cfg, dataset, scheme, c['one'],
                                             list(c.get('schedule') or []) if alg is None else None, alg=alg)
